@@ -149,6 +149,9 @@ pub enum RequestCreationError {
 
     /// Error while reading data from the socket during the creation of the `Request`.
     CreationIoError(IoError),
+
+    /// The `Content-Length` header is not a plain decimal number that fits in a `usize`.
+    InvalidContentLength,
 }
 
 impl From<IoError> for RequestCreationError {
@@ -193,10 +196,23 @@ where
         // header must be ignored (RFC2616 #4.4)
         None
     } else {
-        headers
+        match headers
             .iter()
             .find(|h: &&Header| h.field.equiv("Content-Length"))
-            .and_then(|h| FromStr::from_str(h.value.as_str()).ok())
+        {
+            None => None,
+            Some(h) => {
+                // 1*DIGIT only: no sign, no list, nothing another parser could read differently
+                let value = h.value.as_str();
+                if value.is_empty() || !value.bytes().all(|b| b.is_ascii_digit()) {
+                    return Err(RequestCreationError::InvalidContentLength);
+                }
+                match usize::from_str(value) {
+                    Ok(len) => Some(len),
+                    Err(_) => return Err(RequestCreationError::InvalidContentLength),
+                }
+            }
+        }
     };
 
     // true if the client sent a `Expect: 100-continue` header
